@@ -197,15 +197,17 @@ theorem c19_sum_map_flatMap {α β : Type} (l : List α) (f : α → List β) (g
   | nil => rfl
   | cons x r ih => simp [ih]
 
-theorem numSwapsTree_eq_nodes (dflt : Int) (e : Nat) (radix : Option Nat) (lat : Lat) :
-    ∀ (depth : Nat) (t : Tree Int Int (e + 2 + depth)),
-      numSwapsTree dflt e radix lat depth t = ((mergeNodes dflt e depth t).map (swapsAt radix lat)).sum := by
+theorem numSwapsTree_eq_nodes {ν : Type} (e : Nat) (radix : Option Nat) (lat : Lat) :
+    ∀ (depth : Nat) (t : Tree Int ν (e + 2 + depth)),
+      numSwapsTree e radix lat depth t = ((mergeNodes e depth t).map (swapsAt radix lat)).sum := by
   intro depth
   induction depth with
   | zero => intro t; simp [numSwapsTree, mergeNodes]
   | succ depth ih =>
-    intro t
-    simp only [numSwapsTree, mergeNodes, c19_sum_map_flatMap]
+    intro (t : List (Int × Tree Int ν (e + 2 + depth)))
+    show (t.map (fun el => numSwapsTree e radix lat depth el.2)).sum =
+      ((t.flatMap (fun el => mergeNodes e depth el.2)).map (swapsAt radix lat)).sum
+    rw [c19_sum_map_flatMap]
     congr 1
     apply List.map_congr_left
     intro el _
@@ -219,16 +221,6 @@ theorem coordsOf_skel {κ ν : Type} {d : Nat} (f : Tree κ ν (d + 1)) :
     coordsOf (d := d) (skel (d + 1) f) = coordsOf (d := d) f :=
   map_fst_skel (show List (κ × Tree κ ν d) from f)
 
-theorem filter_map_comm {α β : Type} (l : List α) (sk : α → β) (p : α → Bool) (q : β → Bool)
-    (h : ∀ x ∈ l, q (sk x) = p x) : (l.map sk).filter q = (l.filter p).map sk := by
-  induction l with
-  | nil => rfl
-  | cons x r ih =>
-    have hx := h x (List.mem_cons_self ..)
-    have ih' := ih (fun y hy => h y (List.mem_cons_of_mem _ hy))
-    simp only [List.map_cons, List.filter_cons, hx]
-    by_cases hp : p x = true <;> simp [hp, ih']
-
 theorem c19_flatMap_congr' {α β : Type} (l : List α) (f g : α → List β) (h : ∀ x ∈ l, f x = g x) :
     l.flatMap f = l.flatMap g := by
   induction l with
@@ -237,116 +229,38 @@ theorem c19_flatMap_congr' {α β : Type} (l : List α) (f g : α → List β) (
     simp only [List.flatMap_cons, h x (List.mem_cons_self ..),
       ih (fun y hy => h y (List.mem_cons_of_mem _ hy))]
 
-/-- the list-level content of `mergeNodes` / `skelNodes` at the merge level -/
-theorem nodes_zero (dflt : Int) (e : Nat) (l : List (Int × Tree Int Int (e + 1)))
-    (h : ∀ el ∈ l, isEmpty dflt (e + 1) el.2 = skelEmpty (e + 1) (skel (e + 1) el.2)) :
-    (l.filter (fun el => !isEmpty dflt (e + 1) el.2)).map (fun el => coordsOf (d := e) el.2) =
-    ((l.map (fun el => (el.1, skel (e + 1) el.2))).filter (fun el => !skelEmpty (e + 1) el.2)).map
-      (fun el => coordsOf (d := e) el.2) := by
-  rw [filter_map_comm l (fun el => (el.1, skel (e + 1) el.2)) (fun el => !isEmpty dflt (e + 1) el.2)
-    (fun el => !skelEmpty (e + 1) el.2) (fun x hx => by simp [h x hx])]
+theorem storedLists_skel {ν : Type} (e : Nat) (l : List (Int × Tree Int ν (e + 1))) :
+    storedLists (ν := ν) e l = storedLists (ν := Unit) e (l.map (fun el => (el.1, skel (e + 1) el.2))) := by
+  show (l.map (fun el => coordsOf (d := e) el.2)).filter (fun l => !l.isEmpty) =
+    ((l.map (fun el => (el.1, skel (e + 1) el.2))).map (fun el => coordsOf (d := e) el.2)).filter (fun l => !l.isEmpty)
   rw [List.map_map]
+  congr 1
   apply List.map_congr_left
   intro el _
   exact (coordsOf_skel (d := e) el.2).symm
 
-/-- where emptiness is visible in the skeleton, the merged lists are those of the skeleton -/
-theorem mergeNodes_skel (dflt : Int) (e : Nat) :
-    ∀ (depth : Nat) (t : Tree Int Int (e + 2 + depth)), presentAgrees dflt e depth t = true →
-      mergeNodes dflt e depth t = skelNodes e depth (skel (e + 2 + depth) t) := by
+/-- the merged lists are those of the coordinate skeleton: payload values are never read -/
+theorem mergeNodes_skel {ν : Type} (e : Nat) :
+    ∀ (depth : Nat) (t : Tree Int ν (e + 2 + depth)),
+      mergeNodes e depth t = skelNodes e depth (skel (e + 2 + depth) t) := by
   intro depth
   induction depth with
   | zero =>
-    intro (t : List (Int × Tree Int Int (e + 1))) h
-    have h' : ∀ el ∈ t, isEmpty dflt (e + 1) el.2 = skelEmpty (e + 1) (skel (e + 1) el.2) := by
-      have : (t.all (fun el => isEmpty dflt (e + 1) el.2 == skelEmpty (e + 1) (skel (e + 1) el.2))) = true := h
-      simpa [List.all_eq_true] using this
-    show [(t.filter (fun el => !isEmpty dflt (e + 1) el.2)).map (fun el => coordsOf (d := e) el.2)] =
-      [((t.map (fun el => (el.1, skel (e + 1) el.2))).filter (fun el => !skelEmpty (e + 1) el.2)).map
-        (fun el => coordsOf (d := e) el.2)]
-    rw [nodes_zero dflt e t h']
+    intro (t : List (Int × Tree Int ν (e + 1)))
+    show [storedLists (ν := ν) e t] = [storedLists (ν := Unit) e (t.map (fun el => (el.1, skel (e + 1) el.2)))]
+    rw [storedLists_skel]
   | succ depth ih =>
-    intro (t : List (Int × Tree Int Int (e + 2 + depth))) h
-    have h' : ∀ el ∈ t, isEmpty dflt (e + 2 + depth) el.2 = skelEmpty (e + 2 + depth) (skel (e + 2 + depth) el.2)
-        ∧ (isEmpty dflt (e + 2 + depth) el.2 = true ∨ presentAgrees dflt e depth el.2 = true) := by
-      have : (t.all (fun el => (isEmpty dflt (e + 2 + depth) el.2 == skelEmpty (e + 2 + depth) (skel (e + 2 + depth) el.2))
-                 && (isEmpty dflt (e + 2 + depth) el.2 || presentAgrees dflt e depth el.2))) = true := h
-      simpa [List.all_eq_true] using this
-    show (t.filter (fun el => !isEmpty dflt (e + 2 + depth) el.2)).flatMap (fun el => mergeNodes dflt e depth el.2) =
-      ((t.map (fun el => (el.1, skel (e + 2 + depth) el.2))).filter (fun el => !skelEmpty (e + 2 + depth) el.2)).flatMap
-        (fun el => skelNodes e depth el.2)
-    rw [filter_map_comm t (fun el => (el.1, skel (e + 2 + depth) el.2)) (fun el => !isEmpty dflt (e + 2 + depth) el.2)
-      (fun el => !skelEmpty (e + 2 + depth) el.2) (fun x hx => by simp [(h' x hx).1])]
+    intro (t : List (Int × Tree Int ν (e + 2 + depth)))
+    show t.flatMap (fun el => mergeNodes e depth el.2) =
+      (t.map (fun el => (el.1, skel (e + 2 + depth) el.2))).flatMap (fun el => mergeNodes (ν := Unit) e depth el.2)
     rw [List.flatMap_map]
     apply c19_flatMap_congr'
-    intro el hel
-    have hmem := (List.mem_filter.1 hel)
-    have hne : isEmpty dflt (e + 2 + depth) el.2 = false := by simpa using hmem.2
-    rcases (h' el hmem.1).2 with h'' | h''
-    · rw [hne] at h''; cases h''
-    · exact ih el.2 h''
+    intro el _
+    exact ih el.2
 
-theorem numSwapsTree_skel (dflt : Int) (e : Nat) (radix : Option Nat) (lat : Lat) (depth : Nat)
-    (t : Tree Int Int (e + 2 + depth)) (h : presentAgrees dflt e depth t = true) :
-    numSwapsTree dflt e radix lat depth t = swapsSpec e radix lat depth (skel (e + 2 + depth) t) := by
-  rw [numSwapsTree_eq_nodes, mergeNodes_skel dflt e depth t h, swapsSpec]
-
-/-- no leaf holds the default -/
-def noDefaultLeaf (dflt : Int) : (d : Nat) → Tree Int Int d → Bool
-  | 0, v => decide ((show Int from v) ≠ dflt)
-  | d + 1, f => (show List (Int × Tree Int Int d) from f).all (fun el => noDefaultLeaf dflt d el.2)
-
-theorem isEmpty_skel_of_noDefault (dflt : Int) :
-    ∀ (d : Nat) (t : Tree Int Int d), noDefaultLeaf dflt d t = true →
-      isEmpty dflt d t = skelEmpty d (skel d t) := by
-  intro d
-  induction d with
-  | zero =>
-    intro (t : Int) h
-    have h' : decide (t ≠ dflt) = true := h
-    show decide (t = dflt) = false
-    simpa using h'
-  | succ d ih =>
-    intro (t : List (Int × Tree Int Int d)) h
-    have h' : ∀ el ∈ t, noDefaultLeaf dflt d el.2 = true := by
-      have : (t.all (fun el => noDefaultLeaf dflt d el.2)) = true := h
-      simpa [List.all_eq_true] using this
-    show t.all (fun el => isEmpty dflt d el.2) =
-      (t.map (fun el => (el.1, skel d el.2))).all (fun el => skelEmpty d el.2)
-    rw [List.all_map]
-    clear h
-    induction t with
-    | nil => rfl
-    | cons x r iht =>
-      simp only [List.all_cons, Function.comp_def]
-      rw [ih x.2 (h' x (List.mem_cons_self ..)), iht (fun el hel => h' el (List.mem_cons_of_mem _ hel))]
-      rfl
-
-theorem presentAgrees_of_noDefault (dflt : Int) (e : Nat) :
-    ∀ (depth : Nat) (t : Tree Int Int (e + 2 + depth)), noDefaultLeaf dflt (e + 2 + depth) t = true →
-      presentAgrees dflt e depth t = true := by
-  intro depth
-  induction depth with
-  | zero =>
-    intro (t : List (Int × Tree Int Int (e + 1))) h
-    have h' : ∀ el ∈ t, noDefaultLeaf dflt (e + 1) el.2 = true := by
-      have : (t.all (fun el => noDefaultLeaf dflt (e + 1) el.2)) = true := h
-      simpa [List.all_eq_true] using this
-    show (t.all (fun el => isEmpty dflt (e + 1) el.2 == skelEmpty (e + 1) (skel (e + 1) el.2))) = true
-    rw [List.all_eq_true]
-    intro el hel
-    rw [isEmpty_skel_of_noDefault dflt (e + 1) el.2 (h' el hel)]
-    simp
-  | succ depth ih =>
-    intro (t : List (Int × Tree Int Int (e + 2 + depth))) h
-    have h' : ∀ el ∈ t, noDefaultLeaf dflt (e + 2 + depth) el.2 = true := by
-      have : (t.all (fun el => noDefaultLeaf dflt (e + 2 + depth) el.2)) = true := h
-      simpa [List.all_eq_true] using this
-    show (t.all (fun el => (isEmpty dflt (e + 2 + depth) el.2 == skelEmpty (e + 2 + depth) (skel (e + 2 + depth) el.2))
-                 && (isEmpty dflt (e + 2 + depth) el.2 || presentAgrees dflt e depth el.2))) = true
-    rw [List.all_eq_true]
-    intro el hel
-    rw [isEmpty_skel_of_noDefault dflt _ el.2 (h' el hel), ih el.2 (h' el hel)]
-    simp
+theorem numSwapsTree_skel {ν : Type} (e : Nat) (radix : Option Nat) (lat : Lat) (depth : Nat)
+    (t : Tree Int ν (e + 2 + depth)) :
+    numSwapsTree e radix lat depth t = swapsSpec e radix lat depth (skel (e + 2 + depth) t) := by
+  rw [numSwapsTree_eq_nodes, mergeNodes_skel e depth t, swapsSpec]
 
 end Ft
